@@ -127,7 +127,8 @@ def gen_cfg(r, tier, idx):
                 bystander=(blk % 7) in (0, 2, 3, 5),
                 # the archive is attached only after decoration (f.archive(obj)), as test_cache_info does
                 late_attach=(backend in ('plain', 'null') and (blk // 5) % 2 == 0),
-                longargs=(backend in ('dir', 'bare_dir', 'file') and keymap == 'string' and (blk // 5) % 2 == 1))
+                longargs=(backend in ('dir', 'bare_dir', 'file') and keymap == 'string' and (blk // 5) % 2 == 1),
+                mixedargs=(keymap == 'raw' and not malformed and (blk // 3) % 2 == 0))
 
 
 def compaction_sweep(r, cfg):
@@ -209,6 +210,8 @@ def fun(x):
     xx = x[0] if isinstance(x, list) else x
     if isinstance(xx, BadRepr): xx = xx.n
     if isinstance(xx, str): xx = int(xx[-2:])          # long-argument stratum: the argument number is in the last two characters
+    elif isinstance(xx, tuple): xx = xx[0]              # mixed-argument stratum: (x,), x + 0.5, 's07'
+    elif isinstance(xx, float) and xx != int(xx): xx = int(xx)
     _CUR['log'].append(xx)
     rec = _CUR.get('recurse')
     if rec is not None:
@@ -314,6 +317,9 @@ class Runner:
     def A(self, x):
         """the argument passed for argument number x; the long-argument stratum uses long strings with a long common prefix
         (the string key "('LL..07',)" is 244 characters: still a legal file name)"""
+        if self.cfg.get('mixedargs'):
+            # arguments of mixed types (int, str, tuple, float) under the raw keymap: the keys cannot be ORDERED among each other, only compared for equality
+            return [x, 's%02d' % x, (x,), x + 0.5][x % 4]
         return 'L' * 236 + '%02d' % x if self.cfg.get('longargs') else x
 
     def keyin(self, args):
